@@ -55,8 +55,10 @@ func exprString(e ast.Expr) string {
 	return "?"
 }
 
-// skeletonOf walks a function body in source order.
-func skeletonOf(body *ast.BlockStmt) string {
+// skeletonOf walks a function body in source order. Calls of other methods of the API defined in the same file
+// (helpers: a look-up moved into its own function, ...) are inlined, their deferred Unlock taking effect where the helper
+// returns, so that extracting a helper does not change the skeleton but moving statements between critical sections does.
+func skeletonOf(body *ast.BlockStmt, helpers map[string]*ast.FuncDecl, depth int) string {
 	var out []string
 	var walk func(n ast.Node)
 	emitCall := func(c *ast.CallExpr, deferred bool) bool {
@@ -85,6 +87,21 @@ func skeletonOf(body *ast.BlockStmt) string {
 		case deferred && (f == "cancelSubs"):
 			out = append(out, "DU:cancel")
 		default:
+			if h, ok := helpers[strings.TrimPrefix(f, "api.")]; ok && strings.HasPrefix(f, "api.") && depth < 3 && !deferred {
+				inl := strings.Fields(skeletonOf(h.Body, helpers, depth+1))
+				du := false
+				for _, tk := range inl {
+					if tk == "DU" {
+						du = true
+						continue
+					}
+					out = append(out, tk)
+				}
+				if du {
+					out = append(out, "U")
+				}
+				return true
+			}
 			return false
 		}
 		return true
@@ -151,13 +168,21 @@ func apiSkeletonDiffs(repo string) (map[string][2]string, map[string]string, err
 		return nil, nil, err
 	}
 	found := map[string]string{}
+	helpers := map[string]*ast.FuncDecl{}
+	for _, d := range file.Decls {
+		if fd, ok := d.(*ast.FuncDecl); ok && fd.Recv != nil && fd.Body != nil {
+			if _, modelled := apiSkeletons[fd.Name.Name]; !modelled {
+				helpers[fd.Name.Name] = fd
+			}
+		}
+	}
 	for _, d := range file.Decls {
 		fd, ok := d.(*ast.FuncDecl)
 		if !ok || fd.Recv == nil || fd.Body == nil {
 			continue
 		}
 		if _, modelled := apiSkeletons[fd.Name.Name]; modelled {
-			found[fd.Name.Name] = skeletonOf(fd.Body)
+			found[fd.Name.Name] = skeletonOf(fd.Body, helpers, 0)
 		}
 	}
 	diffs := map[string][2]string{}
